@@ -13,6 +13,10 @@ package conf
 //@ func conf.Config.Check
 //@   property C04 C09 C17
 //@   case map-range: the loops only validate; the order can change which error is reported, never a successful result
+// an operator mapping that names a missing or ill-shaped function is rejected (C17): an entry that
+// survives one iteration of the inner loop is a function with the required shape
+//@   mode panics
+//@   loop 1 body-ensures[well-shaped] ok && kind(fnType.Type) == 19 && numin(fnType.Type) == requiredNumIn && numout(fnType.Type) == 1 && (requiredNumIn == 2 || requiredNumIn == 3) && ((requiredNumIn == 3) == fnType.Method)
 
 // Overload resolution (C17): the first function in list order whose two parameter types fit (l, r).
 //@ func conf.FindSuitableOperatorOverload returns t name ok
@@ -26,7 +30,3 @@ package conf
 //@   loop 0 modifies fresh
 //@   loop 0 invariant[none-so-far] forall(k, 0, rangeindex+1, !fit(k))
 //@   loop 0 invariant[bounds] rangeindex >= -1 && rangeindex < len(fns)
-// an operator mapping that names a missing or ill-shaped function is rejected (C17): an entry that
-// survives one iteration of the inner loop is a function with the required shape
-//@   mode panics
-//@   loop 1 body-ensures[well-shaped] ok && kind(fnType.Type) == 19 && numin(fnType.Type) == requiredNumIn && numout(fnType.Type) == 1 && (requiredNumIn == 2 || requiredNumIn == 3) && ((requiredNumIn == 3) == fnType.Method)
